@@ -81,6 +81,14 @@ Theorem C11_layout_eq_bie1 :
 Proof. exact layout_eq_bie1. Qed.
 Print Assumptions C11_layout_eq_bie1.
 
+(* ... and parsing then decrypting a byte string is the independent BIE1 decryption of it (every input) *)
+Theorem C11_decrypt_eq_bie1 :
+  forall E b pk A hp s,
+    ec_dec E pk = Some A ->
+    (do c <- from_bytes (ecies_std E) s hp; decrypt (ecies_std E) c b pk) = of_option (bie1_decrypt E b A hp s).
+Proof. exact decrypt_eq_bie1. Qed.
+Print Assumptions C11_decrypt_eq_bie1.
+
 (* 4. MAC logic: unconditional rejections *)
 Theorem C11_mac_flip_rejected :
   forall O c d pk m mac',
